@@ -97,7 +97,7 @@ macro_rules! dedup_harness {
             #[kani::stub(crate::verif::sync::streaming::segments::segment::Segment::persist_messages, crate::verif::su::cut_persist_messages)]
             #[kani::stub(crate::verif::sync::streaming::partitions::partition::Partition::add_persisted_segment, crate::verif::su::cut_add_persisted_segment)]
             #[kani::stub(crate::verif::sync::streaming::segments::segment::Segment::is_full, crate::verif::su::summary_is_full_open)]
-            #[kani::unwind(5)]
+            #[kani::unwind(4)]
             fn $name() { dedup_step($n, $ids) }
         }
     };
